@@ -17,6 +17,7 @@ import ast as pyast
 import hashlib
 import json
 import os
+import re
 import sys
 
 from .. import core
@@ -136,7 +137,14 @@ def payloads(canary):
         ("popen", f"__import__('subprocess').Popen(['touch','{canary}/MARK11'])"),
         ("unlink", "__import__('os').remove('MARK12_main.F90')"),
         ("plain_true", "MARK13 or 1"),
+        # template syntax: text that a formatting call would *evaluate* (attribute access, indexing, conversion)
+        ("fmt_attr", "{langid.__class__.__mro__} {0.__class__} MARK14"),
+        ("fmt_index", "{langid[0]}{langid!r:>30} MARK15"),
+        ("percent_dollar", "%(langid)s %s ${HOME} $HOME MARK16"),
     ]
+
+
+TEMPLATE_PAYLOADS = ("fmt_attr", "fmt_index", "percent_dollar")
 
 
 MAIN = "main.F90"
@@ -144,7 +152,7 @@ MAIN = "main.F90"
 
 def sites(P):
     """name -> {files: {rel: text}, argv: [...], config: dict|None, doc: rel of the document to open}"""
-    body = "program main\n  integer :: v1\n{dir}  v1 = 1\nend program main\n"
+    body = "program main\n  integer :: v1\n{dir}  v1 = 1\n  v1 = X\nend program main\n"
 
     def w(directives, extra_files=None, argv=(), config=None, doc=MAIN, files=None):
         f = {MAIN: body.format(dir=directives)}
@@ -222,6 +230,7 @@ def run_case(job, acc: Acc):
     os.chdir(root)
     del _EVENTS[:]
     exc = None
+    shown = []
     _ON[0] = True
     try:
         s = Server(site["argv"])
@@ -242,9 +251,11 @@ def run_case(job, acc: Acc):
             for method in ("textDocument/hover", "textDocument/definition", "textDocument/completion",
                            "textDocument/references", "textDocument/signatureHelp"):
                 line = final_text.split("\n")[ln] if ln < nlines else ""
-                for col in sorted({0, min(9, len(line)), len(line)}):
+                for col in sorted({0, min(9, len(line)), len(line)} | {m.start() + 1 for m in list(re.finditer(r"[A-Za-z_]\w*", line))[:8]}):
                     extra = {"context": {"includeDeclaration": True}} if method.endswith("references") else {}
-                    s.result(method, Server.tdpp(doc, ln, col, **extra))
+                    res = s.result(method, Server.tdpp(doc, ln, col, **extra))
+                    if pname in TEMPLATE_PAYLOADS and method.split("/")[1] in ("hover", "completion", "signatureHelp"):
+                        shown.append((method, ln, col, res))
         s.result("textDocument/documentSymbol", {"textDocument": {"uri": Server.tdpp(doc, 0, 0)["textDocument"]["uri"]}})
         s.result("workspace/symbol", {"query": ""})
         s.notify("exit", {})
@@ -261,6 +272,21 @@ def run_case(job, acc: Acc):
         bad.append(("workspace_tree_changed", ""))
     if after[1] != before[1]:
         bad.append(("canary_changed", str(os.listdir(canary))))
+    # what is shown to the user restates the source text: template syntax in it comes back verbatim, unevaluated
+    squeeze = lambda t: re.sub(r"\s+", "", t)  # noqa: E731
+    for method, ln, col, res in shown:
+        if isinstance(res, tuple) and res and res[0] == "__error__":
+            bad.append(("error_on_template_text", f"{method} {ln}:{col} {res[2][:80]}"))
+            continue
+        txt = json.dumps(res)
+        for m in re.finditer(r"#define X (.*?)(?:\\n|```)", txt):
+            acc.count("macro_bodies_shown")
+            if squeeze(json.dumps(P)[1:-1]) not in squeeze(m.group(0)):
+                bad.append(("template_text_not_verbatim", f"{method} {ln}:{col} shows {m.group(0)[:120]!r}"))
+        for m in re.finditer(r":: s = (.*?)(?:\\n|```)", txt):
+            acc.count("parameter_values_shown")
+            if squeeze(json.dumps(P.replace(chr(34), chr(39)))[1:-1]) not in squeeze(m.group(0)):
+                bad.append(("template_text_not_verbatim", f"{method} {ln}:{col} shows {m.group(0)[:120]!r}"))
     acc.case(nontrivial_key=(pname, sname, path_kind), outcome=(len(events) > 0, exc is None))
     acc.count("audit_events_seen", len(events))
     if exc and "HarnessError" in exc:
